@@ -71,7 +71,10 @@ func (s *server) Close(ctx context.Context) error {
 			conn, ok := value.(gracefulExit)
 			if !ok || conn.isIdle() {
 				value.(Connection).Close()
-			} else {
+			}
+			// a connection counts as active until its close callback has untracked it: Close() above may
+			// only have marked it (input arrived after isIdle and its handler task finishes the close)
+			if _, tracked := s.connections.Load(key); tracked {
 				activeConn++
 			}
 			return true
